@@ -52,6 +52,27 @@ Theorem C08_totalistic_cells_range : forall u cells mask k rule, 2 <= k <= 36 ->
      <-> k ^ (N.of_nat (length cells) * (k - 1) + 1) <= rule).
 Proof. exact totalistic_cells_range. Qed.
 
+(* the all-zero neighbourhood of any size selects the least significant digit, stated on arrays *)
+Theorem C08_all_zero : forall u n k rule, 2 <= k <= 36 ->
+  rule < k ^ (N.of_nat n * (k - 1) + 1) ->
+  totalistic_rule u (repeat 0%Z n) k rule = Ok (rule mod k).
+Proof. exact totalistic_all_zero. Qed.
+
+(* the result range on the function itself: ANY value returned (for any contents, also outside 0..k-1, where
+   Python counts a negative index from the end of the string) is a colour 0..k-1 *)
+Theorem C08_result_in_range : forall u cells mask k rule d, 2 <= k <= 36 ->
+  (totalistic_rule u cells k rule = Ok d -> d < k) /\
+  (totalistic_rule_masked u cells mask k rule = Ok d -> d < k).
+Proof. exact totalistic_cells_result_lt. Qed.
+
+(* ---- The class.  The three theorems below are TRUE BY CONSTRUCTION OF THE MODEL: TotalisticRule_call is
+   defined as totalistic_rule and TotalisticRule_seq as a map of independent calls, because that is what the code
+   of the class reads like (__init__ stores k and rule, __call__ delegates, nothing is cached).  They cannot
+   fail whatever /repo does; they only record that reading.  The clause "TotalisticRule gives the same answers"
+   is therefore carried by the CORRESPONDENCE alone (harness/props/c08.py): class calls with random (c, t),
+   one object reused over neighbourhoods of different sizes and forms (class_sequence), and the class driven by
+   cpl.evolve / cpl.evolve2d (r = 1, 2, Moore and von Neumann) against the plain-engine model with the
+   totalistic model as the rule. *)
 (* the class delegates: TotalisticRule(k, rule)(n, c, t) = totalistic_rule(n, k, rule) *)
 Theorem C08_totalistic_class_agrees : forall k rule u cells mask c t,
   TotalisticRule_call k rule u cells c t = totalistic_rule u cells k rule /\
@@ -133,3 +154,5 @@ Print Assumptions C08_base_repr_length.
 Print Assumptions C08_sum_bounds.
 Print Assumptions C08_totalistic_class_sequence.
 Print Assumptions C08_totalistic_class_sequence_nth.
+Print Assumptions C08_all_zero.
+Print Assumptions C08_result_in_range.
